@@ -44,7 +44,7 @@ package run
 //@   requires trackerok(tracker) && confStats != nil
 //@   modifies tracker.schema.OnLocated, confStats.FixedFields, confStats.UnusedFields
 //@   loop 1: invariant -1 <= rangeindex && rangeindex < len(tracker.fieldsFixed) && fieldNames === tracker.schema.fieldNames && trackerok(tracker)
-//@   loop 2: invariant -1 <= rangeindex#2#2 && rangeindex#2#2 < len(tracker.fieldsInUse) && fieldNames === tracker.schema.fieldNames && trackerok(tracker)
+//@   loop 2: invariant -1 <= rangeindex#2 && rangeindex#2 < len(tracker.fieldsInUse) && fieldNames === tracker.schema.fieldNames && trackerok(tracker)
 
 // ==== reload (C17): a reload whose new configuration is rejected changes nothing but the failure count ===========================
 // lastreloaderr: ghost - the error initiateReload returned
